@@ -758,13 +758,22 @@ class Header:
         primary_hdr = pfits.PrimaryHdr(filename)
         subint_hdr = pfits.SubintHdr(filename)
 
+        # Plain numbers in MHz, as for SIGPROC files (freqs holds astropy quantities)
+        freqs = subint_hdr.freqs
+        foff = float(freqs.foff.value)
+        fch1 = float(freqs.fch1.value)
+        if foff > 0:
+            # PFITSFile.read_subints delivers the channels in descending-frequency order
+            fch1 += foff * (subint_hdr.nchans - 1)
+            foff = -foff
+
         header: dict[str, Any] = {}
         hdr_update = {
             "filename": filename,
             "data_type": "filterbank",
             "nchans": subint_hdr.nchans,
-            "foff": subint_hdr.freqs.foff,
-            "fch1": subint_hdr.freqs.fch1,
+            "foff": foff,
+            "fch1": fch1,
             "nbits": subint_hdr.nbits,
             "tsamp": subint_hdr.tsamp,
             "tstart": primary_hdr.tstart.mjd,
